@@ -91,6 +91,7 @@ def sgrid_dataset(spec, kind, rng, with_comodo=False, entry_order_seed=None):
     ds = xr.Dataset(
         {"grid": ((), np.int32(1), attrs)},
         coords=coords,
-        attrs={rng.choice(["Conventions", "conventions"]): rng.choice(["SGRID-0.3", "CF-1.6, SGRID-0.3", "sgrid", "Sgrid-1"])},
+        attrs={rng.choice(["Conventions", "conventions"]): rng.choice(["SGRID-0.3", "CF-1.6, SGRID-0.3", "sgrid", "Sgrid-1", "CF-1.8 SGRID-0.3", "CF-1.8 ACDD-1.3 SGRID-0.3",
+                                                                    "SGRID-0.3 CF-1.8", "CF-1.6,SGRID-0.3"])},
     )
     return ds
